@@ -34,7 +34,7 @@ RULE = ("geometry product: sizes {1,2,3,5,9,17}^3 with <= 700 voxels + thin "
         "channels {1,2} x storage {deep gzip, flat, compressed_segmentation "
         "(uint32/64), sharded(1,1,0)} on 12 geometries covering every "
         "(factor, fetch-factor) combination; method 'auto' resolved from the "
-        "info type x outside value {None, 0, 255} on 3 geometries; hand-made "
+        "info type x outside value {None, 0, 255} on 3 geometries; a second computation after scale 0 was rewritten with other data; sharded levels are read both when compute_dyadic_scales returns and after the exit handlers; hand-made "
         "two-scale descriptions: axis x factor {1,2} x old chunk {1,2,4} x "
         "new chunk {1,2,3,4,8,16} x old size {16,13} (must be refused or "
         "right). Non-trivial: >= 2 scales and "
@@ -158,8 +158,30 @@ def build_and_run(case, d, poison):
     with Poison(poison), np.errstate(all="ignore"):
         try:
             dyadic_pyramid.compute_dyadic_scales(pio, used)
+            if case.get("rerun"):
+                # the full-resolution scale is rewritten with other data and
+                # the pyramid computed again in the same directory
+                l0b = ((l0.astype(np.int64) + 37) % 200 + 1).astype(l0.dtype)
+                for cc in pipeline.chunk_grid(sc0["size"],
+                                              sc0["chunk_sizes"][0]):
+                    pio.write_chunk(np.ascontiguousarray(
+                        l0b[:, cc[4]:cc[5], cc[2]:cc[3], cc[0]:cc[1]]),
+                        sc0["key"], cc)
+                dyadic_pyramid.compute_dyadic_scales(pio, used)
         except Exception as e:
             exc = e
+    pre = None
+    if exc is None and case["storage"] == "sharded":
+        # everything must be on disk when compute_dyadic_scales returns,
+        # not only once the interpreter exits
+        try:
+            rd0 = pipeline.open_dataset(ds, opts)
+            pre = [pipeline.read_scale(rd0, i)
+                   for i in range(len(info["scales"]))]
+        except Exception as e:
+            sandbox.run_captured_exit_handlers()
+            return info, None, Unreadable(
+                "before the exit handlers ran: " + repr(e)[:160]), ds_obj
     sandbox.run_captured_exit_handlers()
     if exc is not None:
         return info, None, exc, ds_obj
@@ -169,6 +191,11 @@ def build_and_run(case, d, poison):
                   for i in range(len(info["scales"]))]
     except Exception as e:
         return info, None, Unreadable(repr(e)[:200]), ds_obj
+    if pre is not None and any(
+            a.tobytes() != b.tobytes() for a, b in zip(pre, levels)):
+        return info, None, Unreadable(
+            "levels read when compute_dyadic_scales returned differ from "
+            "the levels read after the exit handlers"), ds_obj
     return info, levels, None, ds_obj
 
 
@@ -338,6 +365,17 @@ def method_cases(tier):
                                     "storage": "deep" if st == "cseg"
                                     else st})
     out = [c for c in out if c is not None]
+    # the pyramid computed a second time after scale 0 was rewritten
+    for gi in (0, 2, 8):
+        size, res, target = GEOMS[gi]
+        for st in ("deep", "flat"):
+            for method, outside in (METHODS[0], METHODS[2]):
+                out.append({"kind": "method", "size": list(size),
+                            "resolution": list(res), "target": target,
+                            "method": method, "outside": outside,
+                            "dtype": "uint8", "channels": 1,
+                            "encoding": "raw", "storage": st,
+                            "rerun": True})
     # method chosen by "auto" from the info type, with and without options
     for gi in (0, 2, 6):
         size, res, target = GEOMS[gi]
